@@ -992,17 +992,21 @@ func fixedTreeShakingScenarios(root string, st *Stats) {
 		src   string
 		minif bool
 		known bool
+		trans bool // api.Transform (format conversion without bundling) instead of api.Build
 	}
 	scens := []scen{
-		{"known-nested-var-use-not-linked", "var n = 1;\n{ var n; $p(\"use\", n); }\n", false, true},
-		{"known-nested-var-use-not-linked", "function f() { return 1; }\nif (true) { var f; $p(\"use\", typeof f); }\n", false, true},
-		{"nested-var-redeclare-assignment", "var x = 1;\n{ var x = \"a\"; }\n$p(\"typeof\", typeof x);\n", true, false},
-		{"nested-var-redeclare-assignment", "var y = 1;\nif (true) { var y = [$p(\"init\")]; }\n$p(\"typeof\", typeof y);\n", true, false},
+		{"known-nested-var-use-not-linked", "var n = 1;\n{ var n; $p(\"use\", n); }\n", false, true, false},
+		{"known-nested-var-use-not-linked", "function f() { return 1; }\nif (true) { var f; $p(\"use\", typeof f); }\n", false, true, false},
+		{"nested-var-redeclare-assignment", "var x = 1;\n{ var x = \"a\"; }\n$p(\"typeof\", typeof x);\n", true, false, false},
+		{"nested-var-redeclare-assignment", "var x = 1;\n{ var x = \"a\"; }\n$p(\"typeof\", typeof x);\n", true, false, true},
+		{"nested-var-redeclare-assignment", "function w() {}\nif (true) { var w = [1]; }\n$p(\"typeof\", typeof w);\n", true, false, true},
+		{"known-nested-var-use-not-linked", "var n = 1;\n{ var n; $p(\"use\", n); }\n", false, true, true},
+		{"nested-var-redeclare-assignment", "var y = 1;\nif (true) { var y = [$p(\"init\")]; }\n$p(\"typeof\", typeof y);\n", true, false, false},
 		// regression of fix 5379ad1: a call to an EMPTY function still evaluates its default arguments
-		{"empty-function-default-argument", "function f(a = $p(\"default\")) {}\nf();\n$p(\"end\");\n", true, false},
-		{"empty-function-default-argument", "const g = (a, b = $p(\"default\")) => {};\nconst unused = g(1);\n$p(\"end\");\n", true, false},
-		{"empty-function-default-argument", "function h({ a = $p(\"default\") } = {}) {}\nh(), h(void 0);\n$p(\"end\");\n", true, false},
-		{"empty-function-default-argument", "function k(a = $p(\"default\")) {}\nk();\n$p(\"end\");\n", false, false},
+		{"empty-function-default-argument", "function f(a = $p(\"default\")) {}\nf();\n$p(\"end\");\n", true, false, false},
+		{"empty-function-default-argument", "const g = (a, b = $p(\"default\")) => {};\nconst unused = g(1);\n$p(\"end\");\n", true, false, false},
+		{"empty-function-default-argument", "function h({ a = $p(\"default\") } = {}) {}\nh(), h(void 0);\n$p(\"end\");\n", true, false, false},
+		{"empty-function-default-argument", "function k(a = $p(\"default\")) {}\nk();\n$p(\"end\");\n", false, false, false},
 	}
 	var progs []string
 	var idx []int
@@ -1013,6 +1017,15 @@ func fixedTreeShakingScenarios(root string, st *Stats) {
 			panic(err)
 		}
 		for _, ts := range []api.TreeShaking{api.TreeShakingTrue, api.TreeShakingFalse} {
+			if sc.trans {
+				tr := api.Transform(sc.src, api.TransformOptions{Format: api.FormatIIFE, TreeShaking: ts, MinifySyntax: sc.minif, LogLevel: api.LogLevelSilent})
+				if len(tr.Errors) > 0 {
+					st.Fail("valid-graph-rejected", map[string]interface{}{"scenario": sc.what, "source": sc.src}, fmt.Sprint(tr.Errors), "output")
+					return
+				}
+				progs = append(progs, string(tr.Code))
+				continue
+			}
 			res := api.Build(api.BuildOptions{AbsWorkingDir: dir, EntryPoints: []string{"m0.js"}, Bundle: true, Write: false, Outfile: "out.js",
 				Format: api.FormatIIFE, TreeShaking: ts, MinifySyntax: sc.minif, LogLevel: api.LogLevelSilent})
 			if len(res.Errors) > 0 || len(res.OutputFiles) != 1 {
@@ -1037,7 +1050,7 @@ func fixedTreeShakingScenarios(root string, st *Stats) {
 		}
 		if !on.Same(off) || !on.Same(native) {
 			st.Fail(sc.what, map[string]interface{}{"scenario": sc.what, "files": map[string]string{"m0.js": sc.src},
-				"options": fmt.Sprintf("bundle format=iife minifySyntax=%v, treeShaking true vs false vs the source as a script", sc.minif), "bundle": progs[3*k]},
+				"options": fmt.Sprintf("transform-only=%v format=iife minifySyntax=%v, treeShaking true vs false vs the source as a script", sc.trans, sc.minif), "bundle": progs[3*k]},
 				on.String(), native.String()+" (tree shaking off: "+off.String()+")")
 		}
 	}
